@@ -55,7 +55,7 @@ def _upload_oracle(c, kind, size, thr, off, multipart_expected, checksum=None):
     r = H.progress_reason(c, size, True)
     if r:
         return 'upload: ' + r
-    if kind == 'seekable':
+    if kind in ('seekable', 'duck'):
         if c.src.pos != off + size:
             return 'upload: seekable source not left at EOF'
         for (p, k) in c.src.reads:
@@ -231,8 +231,9 @@ OBLIGATIONS = [
                   'CompleteMultipartUploadTask', 'ChunksizeAdjuster', 'AggregatedProgressCallback'],
          assumptions=['S1', 'S2', 'A3 botocore body protocol', 'identity-content data']),
     dict(id='C01.2', impl='upload', params=_UP, pre=_UPRE,
-         cases=[('seekable', 0, False, False), ('seekable', 1, False, True)], splits=_SPL, timeout=(150, 900),
-         bounds='as C01.1; stream start offset symbolic and unbounded',
+         cases=[('seekable', 0, False, False), ('seekable', 1, False, True), ('duck', 0, False, False)], splits=_SPL,
+         timeout=(150, 900),
+         bounds='as C01.1; stream start offset symbolic and unbounded; third case: a stream offering only read/seek/tell',
          encodes=['UploadSeekableInputManager', 'BytesIO part buffers (BlobIO)', 'ReadFileChunk'],
          assumptions=['S1', 'S2', 'A3', 'identity-content data']),
     dict(id='C01.3', impl='upload_stream', params='size: int, thr: int, chunk: int, s1: int, s2: int, r1: int',
